@@ -139,6 +139,16 @@ def gen_runs(rng, oracle, pool, tier):
             runs.append(Run([D('a', dirs[0]), D('b', dirs[1]), D('m', dirs[2])], cat, ps, 'copies'))
         runs.append(Run([F('Token.sol', c1), D('legacy', [F('Token.sol', c1)]), D('v2', [F('Token.sol', c2)])], cat, ps, 'copies'))
         runs.append(Run([D('x', [D('y', [F('Token.sol', c1)]), F('Token.sol', c1)]), F('Token.sol', c1)], cat, ps, 'copies'))
+    # 3e. a chain of 24 nested directories with an eligible file at every level
+    for cat in cats:
+        ps = pick_ps(rng, oracle, cat)
+        pick = content_picker(oracle, pool, cat, ps)
+        if pick is None:
+            continue
+        t = [F('L24.sol', pick(rng))]
+        for lvl in range(23, 0, -1):
+            t = [F('L%d.sol' % lvl, pick(rng)), D('d', t)] if lvl % 2 else [D('d', t), F('L%d.sol' % lvl, pick(rng)), F('skip.t.sol', b'garbage')]
+        runs.append(Run(t, cat, ps, 'deep'))
     # 4. runs that must abort: an eligible file that is unreadable / rejected by the parser /
     #    panics a detector, somewhere in the tree; and the same with an empty pattern list
     bad = [c for n, c in pool if not all(oracle.good_for(c, cat, oracle.names(cat)) for cat in cats)]
